@@ -7,6 +7,7 @@
 #include <type_traits>
 
 #include "detail/assert.hpp"
+#include "detail/verif_hooks.hpp"
 #include "default_allocator.hpp"
 #include "error.hpp"
 
@@ -79,8 +80,10 @@ public:
 
     temporary_stack* find_unused()
     {
+        FOONATHAN_MEMORY_VERIF_YIELD("temp.find_unused.load_head");
         for (auto ptr = first.load(); ptr; ptr = ptr->next_)
         {
+            FOONATHAN_MEMORY_VERIF_YIELD("temp.find_unused.cas_in_use");
             auto value = false;
             if (ptr->in_use_.compare_exchange_strong(value, true))
                 return static_cast<temporary_stack*>(ptr);
@@ -93,6 +96,7 @@ public:
     {
         if (auto ptr = find_unused())
         {
+            FOONATHAN_MEMORY_VERIF_YIELD("temp.create.reinit_adopted");
             FOONATHAN_MEMORY_ASSERT(ptr->in_use_);
             ptr->stack_ = detail::temporary_stack_impl(size);
             return ptr;
@@ -103,14 +107,18 @@ public:
     void clear(temporary_stack& stack)
     {
         // stack should be empty now, so shrink_to_fit() clears all memory
+        FOONATHAN_MEMORY_VERIF_YIELD("temp.clear.shrink");
         stack.stack_.shrink_to_fit();
+        FOONATHAN_MEMORY_VERIF_YIELD("temp.clear.mark_free");
         stack.in_use_ = false; // mark as free
     }
 
     void destroy()
     {
+        FOONATHAN_MEMORY_VERIF_YIELD("temp.destroy.exchange_head");
         for (auto ptr = first.exchange(nullptr); ptr;)
         {
+            FOONATHAN_MEMORY_VERIF_YIELD("temp.destroy.node");
             auto stack = static_cast<temporary_stack*>(ptr);
             auto next  = ptr->next_;
 
@@ -135,6 +143,7 @@ namespace
     {
         ~thread_exit_detector_t() noexcept
         {
+            FOONATHAN_MEMORY_VERIF_YIELD("temp.thread_exit");
             if (temp_stack)
                 // clear automatically on thread exit, as the initializer's destructor does
                 // note: if another's thread_local variable destructor is called after this one
@@ -148,8 +157,11 @@ namespace
 
 detail::temporary_stack_list_node::temporary_stack_list_node(int) noexcept : in_use_(true)
 {
+    FOONATHAN_MEMORY_VERIF_YIELD("temp.push.load_head");
     next_ = temporary_stack_list_obj.first.load();
+    FOONATHAN_MEMORY_VERIF_YIELD("temp.push.cas_head");
     while (!temporary_stack_list_obj.first.compare_exchange_weak(next_, this))
+        FOONATHAN_MEMORY_VERIF_YIELD("temp.push.cas_retry");
         ;
     (void)&thread_exit_detector; // ODR-use it, so it will be created
 }
@@ -167,6 +179,7 @@ detail::temporary_allocator_dtor_t::~temporary_allocator_dtor_t() noexcept
 
 temporary_stack_initializer::temporary_stack_initializer(std::size_t initial_size)
 {
+    FOONATHAN_MEMORY_VERIF_YIELD("temp.initializer.ctor");
     if (!temp_stack)
         temp_stack = temporary_stack_list_obj.create(initial_size);
 }
@@ -175,12 +188,14 @@ temporary_stack_initializer::~temporary_stack_initializer() noexcept
 {
     // don't destroy, nifty counter does that
     // but can get rid of all the memory
+    FOONATHAN_MEMORY_VERIF_YIELD("temp.initializer.dtor");
     if (temp_stack)
         temporary_stack_list_obj.clear(*temp_stack);
 }
 
 temporary_stack& foonathan::memory::get_temporary_stack(std::size_t initial_size)
 {
+    FOONATHAN_MEMORY_VERIF_YIELD("temp.get_temporary_stack");
     if (!temp_stack)
         temp_stack = temporary_stack_list_obj.create(initial_size);
     return *temp_stack;
